@@ -188,6 +188,51 @@ func R18() Rule {
 				}
 			}
 		}
+		// rejecting helpers: in-repository functions every error of which is an InvalidArgument
+		// status (`newFilterRegexp(field, pat)`), directly or through another such helper
+		rejMemo := map[*ssa.Function]bool{}
+		var rejecting func(g *ssa.Function, depth int) bool
+		var invalidArg func(v ssa.Value, depth int) bool
+		invalidArg = func(v ssa.Value, depth int) bool {
+			v = core.Resolve(v)
+			if isInvalidArgumentStatus(v) {
+				return true
+			}
+			var call *ssa.Call
+			switch x := v.(type) {
+			case *ssa.Extract:
+				call, _ = x.Tuple.(*ssa.Call)
+			case *ssa.Call:
+				call = x
+			}
+			if call == nil || depth > 3 {
+				return false
+			}
+			return rejecting(call.Call.StaticCallee(), depth+1)
+		}
+		rejecting = func(g *ssa.Function, depth int) bool {
+			if g == nil || g.Blocks == nil || core.PkgPathOf(g) != core.PkgBttest || !lastResultIsErrorType(g) {
+				return false
+			}
+			if r, seen := rejMemo[g]; seen {
+				return r
+			}
+			rejMemo[g] = false
+			n, ok := 0, true
+			for _, r := range returnsIn(g) {
+				for _, v := range returnValues(r.Results[len(r.Results)-1]) {
+					if core.IsNilConst(core.Resolve(v)) {
+						continue
+					}
+					n++
+					if !invalidArg(v, depth) {
+						ok = false
+					}
+				}
+			}
+			rejMemo[g] = ok && n > 0
+			return rejMemo[g]
+		}
 		nErr := 0
 		for _, fn := range evalList {
 			k := 0
@@ -203,6 +248,10 @@ func R18() Rule {
 					construct := fmt.Sprintf("error/%s#%d", core.FuncName(fn), k)
 					if isInvalidArgumentStatus(v) {
 						c.Ok("R18", construct, r.Pos(), true, "InvalidArgument status")
+						continue
+					}
+					if invalidArg(v, 0) {
+						c.Ok("R18", construct, r.Pos(), true, "propagated from a helper every error of which is an InvalidArgument status")
 						continue
 					}
 					// propagated from a recursive evaluator call
@@ -238,7 +287,7 @@ func R18() Rule {
 							continue
 						}
 						for _, v := range returnValues(r.Results[len(r.Results)-1]) {
-							if isInvalidArgumentStatus(v) {
+							if invalidArg(v, 0) {
 								// the rejection must depend on the filter's own argument: some
 								// dominating branch between the case entry and the return
 								if r.Block() != ob {
@@ -333,7 +382,7 @@ func R19(group string) Rule {
 		case "filter":
 			fRow := P.MustFunc(core.PkgBttest, "filterRow")
 			c.Fn("filterRow")
-			nInter, nPred := 0, 0
+			nInter, nPred, nBranch := 0, 0, 0
 			// recursive evaluations in filterRow or the per-kind helpers it is split into
 			fscope := P.Scope(fRow, func(f *ssa.Function) bool {
 				return core.PkgPathOf(f) != core.PkgBttest || core.FuncName(f) == "copyRow"
@@ -349,6 +398,13 @@ func R19(group string) Rule {
 					nPred++
 					c.Check(isCopyRowCall(call.Call.Args[1]), "R19", fmt.Sprintf("filter/condition-predicate#%d", nPred), call.Pos(),
 						"the condition predicate is evaluated on copyRow(r)", "the condition predicate is evaluated on the row itself: the selected branch then filters a row already stripped by the predicate")
+				case strings.Contains(chain, "RowFilter_Condition.TrueFilter"), strings.Contains(chain, "RowFilter_Condition.FalseFilter"):
+					// the selected branch filters the row the evaluator was given — not the scratch copy the
+					// predicate ran on (its result would be thrown away and the row returned unfiltered)
+					nBranch++
+					_, onOwnRow := core.Resolve(call.Call.Args[1]).(*ssa.Parameter)
+					c.Check(onOwnRow, "R19", fmt.Sprintf("filter/condition-branch-on-the-row#%d", nBranch), call.Pos(),
+						"the selected branch filter is applied to the evaluator's own row", "the selected branch of a condition filter is applied to a copy (the predicate's scratch row) instead of the row being filtered: the row itself comes back unfiltered and untransformed")
 				}
 			}
 			if nInter < 1 || nPred < 1 {
